@@ -26,9 +26,73 @@ class TranslateError(Exception):
     pass
 
 
+LOG_LEVELS = ('debug', 'info', 'warning', 'warn', 'error', 'critical', 'exception', 'log')
+LOG_OBJECTS = ('logging', 'self.log', 'log', 'logger', 'self.logger')
+
+
+def _pure(e):
+    """expression whose evaluation has no effect on program state: constants, names, attributes, subscripts, arithmetic,
+    comparisons, tuples / lists, f-strings, and the calls 'literal'.format(..), str / repr / len / type of pure expressions"""
+    if isinstance(e, (ast.Constant, ast.Name)):
+        return True
+    if isinstance(e, ast.Attribute):
+        return _pure(e.value)
+    if isinstance(e, ast.Subscript):
+        return _pure(e.value) and _pure(e.slice)
+    if isinstance(e, ast.Slice):
+        return all(x is None or _pure(x) for x in (e.lower, e.upper, e.step))
+    if isinstance(e, (ast.Tuple, ast.List)):
+        return all(_pure(x) for x in e.elts)
+    if isinstance(e, ast.BinOp):
+        return _pure(e.left) and _pure(e.right)
+    if isinstance(e, ast.UnaryOp):
+        return _pure(e.operand)
+    if isinstance(e, ast.Compare):
+        return _pure(e.left) and all(_pure(x) for x in e.comparators)
+    if isinstance(e, ast.BoolOp):
+        return all(_pure(x) for x in e.values)
+    if isinstance(e, ast.JoinedStr):
+        return all(_pure(x) for x in e.values)
+    if isinstance(e, ast.FormattedValue):
+        return _pure(e.value)
+    if isinstance(e, ast.Call) and not e.keywords or isinstance(e, ast.Call) and all(_pure(k.value) for k in e.keywords):
+        f = e.func
+        if isinstance(f, ast.Attribute) and f.attr == 'format' and isinstance(f.value, ast.Constant) and isinstance(f.value.value, str):
+            return all(_pure(a) for a in e.args)
+        if isinstance(f, ast.Name) and f.id in ('str', 'repr', 'len', 'type'):
+            return all(_pure(a) for a in e.args)
+    return False
+
+
+def is_log_statement(st):
+    """`logging.debug(..)` / `self.log.info(..)` ... as a statement, with arguments that are pure expressions"""
+    if not (isinstance(st, ast.Expr) and isinstance(st.value, ast.Call) and isinstance(st.value.func, ast.Attribute)):
+        return False
+    f = st.value.func
+    return f.attr in LOG_LEVELS and ast.unparse(f.value) in LOG_OBJECTS and all(_pure(a) for a in st.value.args) \
+        and all(_pure(k.value) for k in st.value.keywords)
+
+
+class _StripLogs(ast.NodeTransformer):
+    """log statements say nothing about the values a function computes: the translator does not see them (a body that consisted of
+    log statements only keeps a `pass`).  What a log call could still do - raise while evaluating an attribute - is behaviour of the
+    implementation that the correspondence checks observe."""
+
+    def generic_visit(self, node):
+        super().generic_visit(node)
+        for field in ('body', 'orelse', 'finalbody'):
+            b = getattr(node, field, None)
+            if isinstance(b, list) and b and all(isinstance(x, ast.stmt) for x in b):
+                kept = [x for x in b if not is_log_statement(x)]
+                if not kept and field == 'body':
+                    kept = [ast.copy_location(ast.Pass(), b[0])]
+                setattr(node, field, kept)
+        return node
+
+
 def parse_file(path):
     with open(path) as f:
-        return ast.parse(f.read(), filename=path)
+        return _StripLogs().visit(ast.parse(f.read(), filename=path))
 
 
 def find_func(tree, name, cls=None):
